@@ -169,4 +169,11 @@ def obligations(tier):
                     o = c11.boundary_ob(cond, time, dx, 1, 2, facet)
                     o.name = o.name.replace("C11/", "C04/").replace("grid_entry_equals_pointwise", "ensures.grid")
                     obs.append(o)
+    # the boundary term inside a system loss is the per-unknown boundary term built with that unknown's own condition,
+    # function and component selection (C13 contract, reported under C04)
+    from contracts import c13
+    for kind in ("statio", "nonstatio"):
+        o = c13.per_unknown_config(kind)
+        o.name = o.name.replace("C13/", "C04/system/")
+        obs.append(o)
     return obs
